@@ -267,6 +267,8 @@ func (h *Session) ICMP6SendRouterAdvertisement(prefixes []PrefixInformation, rdn
 	if err != nil {
 		return err
 	}
+	// marshal returns the message body only: prepend type, code and checksum placeholder
+	mb = append([]byte{byte(ipv6.ICMPTypeRouterAdvertisement), 0, 0, 0}, mb...)
 
 	return h.icmp6SendPacket(Addr{MAC: h.NICInfo.HostAddr4.MAC, IP: h.NICInfo.HostLLA.Addr()}, dstAddr, mb)
 }
@@ -284,6 +286,8 @@ func (h *Session) ICMP6SendRouterSolicitation() error {
 	if err != nil {
 		return err
 	}
+	// marshal returns the message body only: prepend type, code and checksum placeholder
+	mb = append([]byte{byte(ipv6.ICMPTypeRouterSolicitation), 0, 0, 0}, mb...)
 
 	return h.icmp6SendPacket(Addr{MAC: h.NICInfo.HostAddr4.MAC, IP: h.NICInfo.HostLLA.Addr()}, IP6AllRoutersAddr, mb)
 }
